@@ -26,7 +26,9 @@ LEAN_WORDS = {'prefix', 'infix', 'infixl', 'infixr', 'postfix', 'notation', 'ope
               'else', 'if', 'fun', 'let', 'have', 'show', 'match', 'with', 'where', 'instance', 'class', 'structure', 'macro',
               'syntax', 'section', 'namespace', 'variable', 'universe', 'local', 'private', 'protected', 'theorem', 'def',
               'example', 'axiom', 'import', 'export', 'deriving', 'mutual', 'partial', 'unsafe', 'nomatch', 'suffices', 'calc',
-              'Type', 'Prop', 'Sort', 'forall', 'exists', 'using', 'extends', 'abbrev', 'inductive', 'return', 'for', 'unless'}
+              'Type', 'Prop', 'Sort', 'forall', 'exists', 'using', 'extends', 'abbrev', 'inductive', 'return', 'for', 'unless',
+              # names the translation itself uses
+              'width', 'maxInt', 'min', 'max', 'fuel', 'fuel0', 'cnt', 'cnt0', 'items', 'items0'}
 
 
 def nm(x):
@@ -111,9 +113,15 @@ FUNCS = [
          params=[('int_val', 'int'), ('word_size', 'int'), ('num_words', 'int')], ret='ilist'),
     dict(name='words_to_int', tie='NV.Tie.words_to_int_eq', prop='C15', file='strategy/__init__.py', cls=None, func='words_to_int', kind=None,
          params=[('words', 'ilist'), ('word_size', 'int'), ('num_words', 'int')], ret='int'),
+    # spanning_cidr over a list of IPNetwork objects (iterator protocol: iter / next / StopIteration, chain, generator)
+    dict(name='spanning_cidr', tie='NV.Tie.spanning_cidr_eq', prop='C13', file='ip/__init__.py', cls=None, func='spanning_cidr', kind=None,
+         params=[('ip_addrs', 'netlist')], ret='ctor3', fuel='prefixlen.toNat'),
+    # (iprange_to_cidrs is listed after cidr_partition and spanning_cidr, which it calls: see below)
     # the halving loop of cidr_partition (arguments already IPNetwork objects: `target = IPNetwork(target)` is the identity)
     dict(name='cidr_partition', tie='NV.Tie.cidr_partition_eq', prop='C09', file='ip/__init__.py', cls=None, func='cidr_partition', kind=None,
          params=[('target', 'obj:net'), ('exclude', 'obj:net')], ret='lists3', fuel='(width exclude_ver + 1)'),
+    dict(name='iprange_to_cidrs', tie='NV.Tie.iprange_to_cidrs_eq', prop='C05', file='ip/__init__.py', cls=None, func='iprange_to_cidrs', kind=None,
+         params=[('start', 'obj:net'), ('end', 'obj:net')], ret='list3'),
     # `x in y`: one translation per operand class (isinstance tests are decided by the declared class)
     dict(name='IPNetwork_contains_addr', tie='NV.Tie.net_contains_addr', prop='C04', file='ip/__init__.py', cls='IPNetwork', func='__contains__', kind='net', params=[('other', 'obj:addr')], ret='bool'),
     dict(name='IPNetwork_contains_net', tie='NV.Tie.net_contains_net', prop='C04', file='ip/__init__.py', cls='IPNetwork', func='__contains__', kind='net', params=[('other', 'obj:net')], ret='bool'),
@@ -157,6 +165,9 @@ class Ctx:
         self.opts = set()           # local variables holding Optional constructor results
         self.vartypes = {}          # local variable -> 'int' | 'list3'
         self.vartypes.update({p: 'ilist' for p, t in spec['params'] if t == 'ilist'})
+        self.vartypes.update({p: 'netlist' for p, t in spec['params'] if t == 'netlist'})
+        self.nets = {}              # local network object (from a constructor tuple) -> (val, plen, ver) Lean names, ver an Int
+        self.listlits = {}          # local list literal of ints -> names of its components
         self.objvars = {}           # local variable holding a constructed object -> names of its tuple components
         self.fn = None              # the FunctionDef being translated
         self.stored = 0             # > 0 while translating statements that follow a store to a field of self
@@ -238,6 +249,17 @@ def intrinsic(ctx, e):
             for sp in ctx.table.values():
                 if sp['func'] == ch[1] and sp['kind'] == k and sp['ret'] == 'int' and not sp.get('_raises') and not sp['params']:
                     return '(%s %s)' % (sp['name'], ' '.join('%s_%s' % (o, f) for f in OBJ_FIELDS[k]))
+    if ch[0] in ctx.nets and len(ch) == 2:
+        v_, p_, r_ = ctx.nets[ch[0]]
+        if ch[1] in ('prefixlen', '_prefixlen'):
+            return p_
+        if ch[1] == '_value':
+            return v_
+        if ch[1] == 'version':
+            return r_
+        for sp in ctx.table.values():
+            if sp['func'] == ch[1] and sp['kind'] == 'net' and sp['ret'] == 'int' and not sp.get('_raises') and not sp['params']:
+                return '(%s (%s).toNat %s %s)' % (sp['name'], r_, v_, p_)
     if ch in (['_ipv4', 'max_int'],):
         return '((maxInt 4 : Nat) : Int)'
     if ch in (['_ipv4', 'width'],):
@@ -322,6 +344,10 @@ def ival(ctx, e):
             if r:
                 raise Untranslatable('raising member inside an expression')
             return t
+    if isinstance(e, ast.Subscript) and isinstance(e.value, ast.Name) and e.value.id in ctx.listlits \
+            and isinstance(e.slice, ast.Constant) and isinstance(e.slice.value, int) \
+            and 0 <= e.slice.value < len(ctx.listlits[e.value.id]):
+        return ctx.listlits[e.value.id][e.slice.value]
     if isinstance(e, ast.BinOp) and type(e.op) in BINOPS:
         return BINOPS[type(e.op)] % (ival(ctx, e.left), ival(ctx, e.right))
     if isinstance(e, ast.UnaryOp) and isinstance(e.op, ast.USub):
@@ -351,6 +377,8 @@ def ival(ctx, e):
     if isinstance(e, ast.Call) and isinstance(e.func, ast.Name) and e.func.id == 'len' and len(e.args) == 1 \
             and isinstance(e.args[0], ast.Name) and ctx.vartypes.get(e.args[0].id) == 'ilist':
         return '((%s.length : Nat) : Int)' % nm(e.args[0].id)
+    if isinstance(e, ast.Call) and isinstance(e.func, ast.Name) and e.func.id in ('min', 'max') and len(e.args) == 2 and not e.keywords:
+        return '(%s %s %s)' % (e.func.id, ival(ctx, e.args[0]), ival(ctx, e.args[1]))
     if isinstance(e, ast.IfExp):
         return '(if %s then %s else %s)' % (prop(ctx, e.test), ival(ctx, e.body), ival(ctx, e.orelse))
     raise Untranslatable('integer expression %s' % ast.dump(e)[:80])
@@ -441,6 +469,8 @@ def ret_type(spec):
         base = 'List (Int × Int × Int) × List (Int × Int × Int) × List (Int × Int × Int)'
     if r == 'ilist':
         base = 'List Int'
+    if r == 'list3':
+        base = 'List (Int × Int × Int)'
     if r == 'self':
         base = ' × '.join('Int' for _ in KINDS[spec['kind']][1])
     return base
@@ -457,6 +487,8 @@ def obj_tuple(ctx, e):
         if len(a) != 3:
             raise Untranslatable('list element constructor arity %d' % len(a))
         return '(' + ', '.join(a) + ')'
+    if isinstance(e, ast.Name) and e.id in ctx.nets:
+        return '(%s, %s, %s)' % ctx.nets[e.id]
     if isinstance(e, ast.Name) and ctx.objs.get(e.id) == 'net':
         return '(%s_val, %s_plen, ((%s_ver : Nat) : Int))' % (e.id, e.id, e.id)
     ch = attr_chain(e)
@@ -477,7 +509,26 @@ def lval(ctx, e):
             and isinstance(e.slice.step, ast.UnaryOp) and isinstance(e.slice.step.op, ast.USub) \
             and isinstance(e.slice.step.operand, ast.Constant) and e.slice.step.operand.value == 1:
         return '(%s).reverse' % lval(ctx, e.value)
+    if isinstance(e, ast.Subscript) and isinstance(e.slice, ast.Constant) and e.slice.value in (0, 1, 2) \
+            and isinstance(e.value, ast.Call) and isinstance(e.value.func, ast.Name) and not e.value.keywords:
+        for sp in ctx.table.values():
+            if sp['cls'] is None and sp['func'] == e.value.func.id and sp['ret'] == 'lists3' and not sp.get('_raises') \
+                    and len(sp['params']) == len(e.value.args):
+                args = []
+                for a in e.value.args:
+                    args += net_fields(ctx, a)
+                return '(%s %s)%s' % (sp['name'], ' '.join(args), ['.1', '.2.1', '.2.2'][e.slice.value])
     raise Untranslatable('list expression %s' % ast.dump(e)[:60])
+
+
+def net_fields(ctx, a):
+    """(ver : Nat, val, plen) Lean terms of a network object given by name"""
+    if isinstance(a, ast.Name) and a.id in ctx.nets:
+        v_, p_, r_ = ctx.nets[a.id]
+        return ['(%s).toNat' % r_, v_, p_]
+    if isinstance(a, ast.Name) and ctx.objs.get(a.id) == 'net':
+        return ['%s_ver' % a.id, '%s_val' % a.id, '%s_plen' % a.id]
+    raise Untranslatable('network argument %s' % ast.dump(a)[:50])
 
 
 def retval(ctx, e):
@@ -492,6 +543,8 @@ def retval(ctx, e):
         if isinstance(e, ast.Name) and ctx.vartypes.get(e.id) == 'ilist':
             return nm(e.id)
         raise Untranslatable('return of %s' % ast.dump(e)[:60])
+    if r == 'list3':
+        return lval(ctx, e)
     if r == 'lists3':
         if isinstance(e, ast.Tuple) and len(e.elts) == 3:
             return '(' + ', '.join(lval(ctx, x) for x in e.elts) + ')'
@@ -612,6 +665,9 @@ def block(ctx, stmts, ind, loop=None):
             if isinstance(s, ast.AugAssign):
                 val2 = ast.BinOp(left=ast.Name(id=c0), op=s.op, right=s.value)
             return '%slet %s : Int := %s\n%s' % (pad, c0, ival(ctx, val2), block(ctx, rest, ind, loop))
+        if isinstance(s, ast.AugAssign) and isinstance(tgt, ast.Name) and ctx.vartypes.get(tgt.id) == 'list3' \
+                and isinstance(s.op, ast.Add):
+            return '%slet %s : List (Int × Int × Int) := %s ++ %s\n%s' % (pad, tgt.id, tgt.id, lval(ctx, s.value), block(ctx, rest, ind, loop))
         if not isinstance(tgt, ast.Name):
             raise Untranslatable('assignment target')
         v = tgt.id
@@ -619,6 +675,67 @@ def block(ctx, stmts, ind, loop=None):
         if v in ctx.objs and is_ctor_call(ctx, val) and len(val.args) == 1 and isinstance(val.args[0], ast.Name) \
                 and val.args[0].id == v and not val.keywords:
             return block(ctx, rest, ind, loop)
+        if isinstance(val, ast.Call) and isinstance(val.func, ast.Name) and val.func.id == 'iter' and len(val.args) == 1 \
+                and isinstance(val.args[0], ast.Name) and ctx.vartypes.get(val.args[0].id) == 'netlist':
+            # an iterator over a list is the list of the items still to come
+            ctx.vartypes[v] = 'netiter'
+            return '%slet %s : List (Nat × Int × Int) := %s\n%s' % (pad, nm(v), nm(val.args[0].id), block(ctx, rest, ind, loop))
+        # x = [e1, e2, ...]: a literal list of ints, read back only by constant index
+        if isinstance(val, ast.List) and val.elts and ctx.spec['ret'] != 'ilist':
+            try:
+                terms = [ival(ctx, x) for x in val.elts]
+            except Untranslatable:
+                terms = None
+            if terms is not None:
+                names = ['%s__%d' % (v, i) for i in range(len(terms))]
+                ctx.listlits[v] = names
+                lets = ''.join('%slet %s : Int := %s\n' % (pad, n, t) for n, t in zip(names, terms))
+                return lets + block(ctx, rest, ind, loop)
+        # x = IPNetwork((v, p), version=r): a local network object
+        if is_ctor_call(ctx, val) and ctor_class(ctx, val) == 'IPNetwork' and not ctx.spec['ret'].startswith('opt_ctor'):
+            a3 = ctor_args(ctx, val)
+            if len(a3) == 3:
+                names = ('%s__val' % v, '%s__plen' % v, '%s__ver' % v)
+                ctx.nets[v] = names
+                lets = ''.join('%slet %s : Int := %s\n' % (pad, n, t) for n, t in zip(names, a3))
+                return lets + block(ctx, rest, ind, loop)
+        # x = f(...) for a translated module-level function returning a network (possibly raising)
+        if isinstance(val, ast.Call) and isinstance(val.func, ast.Name) and not val.keywords:
+            for sp in ctx.table.values():
+                if sp['cls'] is None and sp['func'] == val.func.id and sp['ret'] == 'ctor3' and len(sp['params']) == len(val.args):
+                    args = []
+                    for a, (pn, pt) in zip(val.args, sp['params']):
+                        args.append(net_items(ctx, a) if pt == 'netlist' else ival(ctx, a))
+                    names = ('%s__val' % v, '%s__plen' % v, '%s__ver' % v)
+                    ctx.nets[v] = names
+                    call = '(%s %s)' % (sp['name'], ' '.join(args))
+                    tail = block(ctx, rest, ind + 1, loop)
+                    bind = '%s  let %s : Int := %s__t.1\n%s  let %s : Int := %s__t.2.1\n%s  let %s : Int := %s__t.2.2\n' % (
+                        pad, names[0], v, pad, names[1], v, pad, names[2], v)
+                    if sp.get('_raises'):
+                        return '%smatch %s with\n%s| .error e => .error e\n%s| .ok %s__t =>\n%s%s' % (pad, call, pad, pad, v, bind, tail)
+                    return '%slet %s__t := %s\n%s%s' % (pad, v, call, bind.replace(pad + '  ', pad), block(ctx, rest, ind, loop))
+        # x = xs.pop(): the last item (IndexError on an empty list), xs loses it
+        if isinstance(val, ast.Call) and isinstance(val.func, ast.Attribute) and val.func.attr == 'pop' and not val.args \
+                and isinstance(val.func.value, ast.Name) and ctx.vartypes.get(val.func.value.id) == 'list3':
+            xs = val.func.value.id
+            names = ('%s__val' % v, '%s__plen' % v, '%s__ver' % v)
+            ctx.nets[v] = names
+            ctx.raises_extra = True
+            tail = block(ctx, rest, ind + 1, loop)
+            return ('%smatch (%s).getLast? with\n%s| none => .error .index\n%s| some %s__t =>\n' % (pad, xs, pad, pad, v) +
+                    '%s  let %s : Int := %s__t.1\n%s  let %s : Int := %s__t.2.1\n%s  let %s : Int := %s__t.2.2\n' % (
+                        pad, names[0], v, pad, names[1], v, pad, names[2], v) +
+                    '%s  let %s : List (Int × Int × Int) := (%s).dropLast\n%s' % (pad, xs, xs, tail))
+        # xs = <list expression>
+        if ctx.vartypes.get(v) == 'list3' or (isinstance(val, ast.Subscript) and not isinstance(val.value, ast.Name)):
+            try:
+                t = lval(ctx, val)
+                ctx.vartypes[v] = 'list3'
+                return '%slet %s : List (Int × Int × Int) := %s\n%s' % (pad, v, t, block(ctx, rest, ind, loop))
+            except Untranslatable:
+                if ctx.vartypes.get(v) == 'list3':
+                    raise
         if isinstance(val, ast.List) and not val.elts and ctx.spec['ret'] == 'ilist':
             ctx.vartypes[v] = 'ilist'
             return '%slet %s : List Int := []\n%s' % (pad, nm(v), block(ctx, rest, ind, loop))
@@ -655,7 +772,7 @@ def block(ctx, stmts, ind, loop=None):
                 t, _ = call_member(ctx, sm, [ival(ctx, a) for a in val.args])
                 return '%smatch %s with\n%s| .error e => .error e\n%s| .ok %s =>\n%s' % (pad, t, pad, pad, v, block(ctx, rest, ind + 1, loop))
         ctx.vartypes.setdefault(v, 'int')
-        return '%slet %s : Int := %s\n%s' % (pad, v, ival(ctx, val), block(ctx, rest, ind, loop))
+        return '%slet %s : Int := %s\n%s' % (pad, nm(v), ival(ctx, val), block(ctx, rest, ind, loop))
     if isinstance(s, ast.Expr) and isinstance(s.value, ast.Call) and isinstance(s.value.func, ast.Attribute) \
             and s.value.func.attr == 'append' and isinstance(s.value.func.value, ast.Name) \
             and ctx.vartypes.get(s.value.func.value.id) == 'list3' and len(s.value.args) == 1:
@@ -668,6 +785,8 @@ def block(ctx, stmts, ind, loop=None):
         return '%slet %s : List Int := %s ++ [%s]\n%s' % (pad, v, v, ival(ctx, s.value.args[0]), block(ctx, rest, ind, loop))
     if isinstance(s, ast.For):
         return for_loop(ctx, s, rest, ind, loop)
+    if isinstance(s, ast.Try):
+        return try_next(ctx, s, rest, ind, loop)
     if isinstance(s, ast.If):
         st = static_test(ctx, s.test)
         if st is not None:
@@ -692,7 +811,7 @@ def block(ctx, stmts, ind, loop=None):
         extra = ' '.join(param_binders(ctx.spec))
         rt = ret_type(ctx.spec)
         rt = 'R (%s)' % rt if ctx.spec['_raises'] else rt
-        call_vars = KINDS[ctx.kind][0] + param_names(ctx.spec) + lv
+        call_vars = KINDS[ctx.kind][0] + param_names(ctx.spec) + [nm(v) for v in lv]
         after = block(ctx, rest, 2, loop)
         body = block(ctx, list(s.body), 3, (lname + ' fuel', call_vars, rest, loop))
         ctx.loops.append(
@@ -702,7 +821,7 @@ def block(ctx, stmts, ind, loop=None):
     raise Untranslatable('statement %s' % type(s).__name__)
 
 
-VT = {'int': 'Int', 'list3': 'List (Int × Int × Int)', 'ilist': 'List Int'}
+VT = {'int': 'Int', 'list3': 'List (Int × Int × Int)', 'ilist': 'List Int', 'netiter': 'List (Nat × Int × Int)'}
 
 
 def locals_before(ctx, s):
@@ -757,13 +876,83 @@ def for_loop(ctx, s, rest, ind, loop):
         ctx.loops.append('def %s (items0 : List Int) (%s : Int) %s %s %s : %s :=\n  match items0 with\n  | [] =>\n%s\n  | %s :: items =>\n%s\n'
                          % (lname, i, selfp, extra, par, rt, after, x, body))
         return '%s%s (%s).reverse (0 : Int) %s' % (pad, lname, nm(it.args[0].args[0].id), ' '.join(call_vars))
+    if isinstance(s.target, ast.Name):
+        src = net_items(ctx, it)
+        x = s.target.id
+        ctx.objs[x] = 'net'
+        body = block(ctx, list(s.body), 2, (lname + ' items', call_vars, rest, loop))
+        ctx.loops.append('def %s (items0 : List (Nat × Int × Int)) %s %s %s : %s :=\n  match items0 with\n  | [] =>\n%s\n  | (%s_ver, %s_val, %s_plen) :: items =>\n%s\n'
+                         % (lname, selfp, extra, par, rt, after, x, x, x, body))
+        return '%s%s %s %s' % (pad, lname, src, ' '.join(call_vars))
     raise Untranslatable('for loop over %s' % ast.dump(it)[:60])
+
+
+def next_call(ctx, e):
+    """`_iter_next(it)` / `next(it)`, possibly wrapped in `IPNetwork(...)` (the items are declared to be networks):
+    the iterator variable, else None"""
+    if is_ctor_call(ctx, e) and ctor_class(ctx, e) == 'IPNetwork' and len(e.args) == 1 and not e.keywords:
+        e = e.args[0]
+    if isinstance(e, ast.Call) and isinstance(e.func, ast.Name) and e.func.id in ('_iter_next', 'next') and len(e.args) == 1 \
+            and isinstance(e.args[0], ast.Name) and ctx.vartypes.get(e.args[0].id) == 'netiter':
+        return e.args[0].id
+    return None
+
+
+def try_next(ctx, s, rest, ind, loop):
+    """try: x = IPNetwork(_iter_next(it)); y = ...  except StopIteration: <handler>  -- each `next` either takes
+    the head of the remaining items or runs the handler"""
+    if s.orelse or s.finalbody or len(s.handlers) != 1:
+        raise Untranslatable('try statement shape')
+    h = s.handlers[0]
+    if not (isinstance(h.type, ast.Name) and h.type.id == 'StopIteration'):
+        raise Untranslatable('except clause %s' % ast.dump(h.type)[:40] if h.type is not None else 'bare except')
+    for st in s.body:
+        if not (isinstance(st, ast.Assign) and len(st.targets) == 1 and isinstance(st.targets[0], ast.Name)
+                and next_call(ctx, st.value)):
+            raise Untranslatable('statement inside try: only `x = next(iterator)` is understood')
+    handler = block(ctx, list(h.body), ind + 1, loop)
+
+    def go(stmts, ind2):
+        pad = '  ' * ind2
+        if not stmts:
+            return block(ctx, rest, ind2, loop)
+        st = stmts[0]
+        v, it = st.targets[0].id, next_call(ctx, st.value)
+        ctx.objs[v] = 'net'
+        inner = go(stmts[1:], ind2 + 1)
+        return '%smatch %s with\n%s| [] =>\n%s\n%s| (%s_ver, %s_val, %s_plen) :: %s =>\n%s' % (
+            pad, nm(it), pad, handler, pad, v, v, v, nm(it), inner)
+    return go(list(s.body), ind)
+
+
+def net_items(ctx, e):
+    """a Lean list of network objects (ver, val, plen) for an iterable of networks"""
+    if isinstance(e, ast.Call) and ((isinstance(e.func, ast.Attribute) and e.func.attr == 'chain') or
+                                    (isinstance(e.func, ast.Name) and e.func.id == 'chain')) and not e.keywords:
+        return '(' + ' ++ '.join(net_items(ctx, a) for a in e.args) + ')'
+    if isinstance(e, ast.List) and all(isinstance(x, ast.Name) and (ctx.objs.get(x.id) == 'net' or x.id in ctx.nets) for x in e.elts):
+        return '[' + ', '.join('(%s, %s, %s)' % tuple(net_fields(ctx, x)) for x in e.elts) + ']'
+    if isinstance(e, ast.GeneratorExp) and len(e.generators) == 1 and not e.generators[0].ifs \
+            and isinstance(e.generators[0].target, ast.Name) and isinstance(e.generators[0].iter, ast.Name) \
+            and ctx.vartypes.get(e.generators[0].iter.id) in ('netiter', 'netlist') \
+            and is_ctor_call(ctx, e.elt) and ctor_class(ctx, e.elt) == 'IPNetwork' and len(e.elt.args) == 1 \
+            and isinstance(e.elt.args[0], ast.Name) and e.elt.args[0].id == e.generators[0].target.id and not e.elt.keywords:
+        return nm(e.generators[0].iter.id)          # IPNetwork(x) of a network is that network
+    if isinstance(e, ast.Name) and ctx.vartypes.get(e.id) in ('netiter', 'netlist'):
+        return nm(e.id)
+    raise Untranslatable('iterable of networks %s' % ast.dump(e)[:60])
 
 
 def has_raise(fn, ctx_table, spec):
     for n in ast.walk(fn):
         if isinstance(n, ast.Raise):
             return True
+        if isinstance(n, ast.Call) and isinstance(n.func, ast.Attribute) and n.func.attr == 'pop' and not n.args:
+            return True
+        if isinstance(n, ast.Call) and isinstance(n.func, ast.Name):
+            for sp in ctx_table.values():
+                if sp['cls'] is None and sp['func'] == n.func.id and sp.get('_raises'):
+                    return True
     return False
 
 
@@ -774,6 +963,8 @@ def param_binders(spec):
             out += ['(%s_%s : %s)' % (p, f, 'Nat' if f == 'ver' else 'Int') for f in OBJ_FIELDS[t[4:]]]
         elif t == 'ilist':
             out.append('(%s : List Int)' % nm(p))
+        elif t == 'netlist':
+            out.append('(%s : List (Nat × Int × Int))' % nm(p))
         else:
             out.append('(%s : %s)' % (nm(p), 'Bool' if t == 'bool' else 'Int'))
     return out
